@@ -29,6 +29,7 @@ func init() {
 	Register("C13", &Scenario{Name: "constructor-fault-enumeration", Directed: len(c13Cases), Run: func(c *Ctx, v int) { runC13Enum(c, v) }})
 	Register("C13", &Scenario{Name: "repeated-close", Weight: 6, Directed: len(c13CloseKinds), Run: func(c *Ctx, v int) { runC13Close(c, v) }})
 	Register("C13", &Scenario{Name: "gc-while-in-flight", Weight: 4, Directed: 8, Run: func(c *Ctx, v int) { runC13GC(c, v) }})
+	Register("C13", &Scenario{Name: "gc-after-reconnect-from-handler", Weight: 2, Directed: 2, Run: func(c *Ctx, v int) { runC13Reconnect(c, v) }})
 }
 
 var (
@@ -37,6 +38,7 @@ var (
 	c13pEMFILE    = sim.RegStat("probe:c13-emfile-at-kth-allocation")
 	c13pBehaviour = sim.RegStat("probe:c13-peer-made-constructor-fail")
 	c13pReuse     = sim.RegStat("probe:c13-descriptor-number-reused-before-second-close")
+	c13pFdReused  = sim.RegStat("probe:c13-new-connection-dialed-from-a-handler-after-close")
 	c13pGC        = sim.RegStat("probe:c13-gc-with-operation-in-flight")
 	c13pGCBoth    = sim.RegStat("probe:c13-gc-between-read-and-write-completion")
 	c13pFinalizer = sim.RegStat("probe:c13-conn-finalizer-ran")
@@ -685,6 +687,89 @@ func c13Detached(e *c13Env, adapter bool, read, write, prior bool, rdDone, wrDon
 		})
 	}
 	return weak.Make(s), end
+}
+
+// runC13Reconnect: the usual reconnect pattern - a read completes with the end of the stream, the handler
+// closes the connection and dials a new one (which gets the descriptor number just released) and starts a read
+// on it, keeping no reference. A collection follows; the new connection's read must still complete.
+func runC13Reconnect(c *Ctx, v int) {
+	w := c.W
+	ioc, err := sonic.NewIO()
+	if err != nil {
+		sim.Bug("NewIO: %v", err)
+	}
+	defer ioc.Close()
+	e := &c13Env{c: c, w: w, ioc: ioc, port: 9800}
+	port := e.nextPort()
+	al := w.K.ActorListen(loopIP, port, sim.ConnAccept)
+	var endA *sim.TCPEnd
+	al.OnConn(func(x *sim.TCPEnd) { endA = x })
+	a, err := sonic.Dial(ioc, "tcp", fmt.Sprintf("127.0.0.1:%d", port))
+	if err != nil {
+		sim.Bug("Dial: %v", err)
+	}
+	al.Close()
+	oldFd := a.RawFd()
+	adapter := w.Chance(1, 3)
+	closeFirst := w.Chance(2, 3)
+	if v >= 0 {
+		adapter, closeFirst = false, v == 0
+	}
+	var (
+		rdDone, wrDone int
+		wp             weak.Pointer[c13Sentinel]
+		endB           *sim.TCPEnd
+		reconnected    bool
+	)
+	a.AsyncRead(make([]byte, 64), func(err error, n int) {
+		if err == nil {
+			sim.Bug("c13: the first connection's read completed without an error")
+		}
+		if closeFirst {
+			a.Close() // the number is free again: the new connection gets it
+		}
+		wp, endB = c13Detached(e, adapter, true, false, false, &rdDone, &wrDone)
+		if !closeFirst {
+			a.Close()
+		}
+		reconnected = true
+	})
+	poll := func() {
+		w.Advance(2_000_000)
+		if _, err := ioc.PollOne(); err != nil && err != sonicerrors.ErrTimeout {
+			c.Failf("poll-error", "PollOne: %v", err)
+		}
+	}
+	endA.ActorClose()
+	for i := 0; i < 50 && !reconnected; i++ {
+		w.Drain(1_000_000_000)
+		poll()
+	}
+	if !reconnected {
+		sim.Bug("c13: the first connection's read did not complete after the peer closed")
+	}
+	if closeFirst && !adapter {
+		w.Stat(c13pFdReused)
+	}
+	_ = oldFd
+	poll()
+	w.Stat(c13pGC)
+	runtime.GC()
+	runtime.GC()
+	if n := shimnet.CollectGarbage(); n > 0 {
+		w.StatAdd(c13pFinalizer, n)
+	}
+	if wp.Value() == nil {
+		c.FailOrTolerate("owner-collected-while-operation-in-flight/reconnected-from-handler", "a handler closed its connection, dialed a new one and started a read on it (close first: %v, adapter: %v); the program holds no reference to the new connection and after a garbage collection its completion callback is gone although the read is still in flight", closeFirst, adapter)
+	}
+	endB.ActorSend([]byte("hello"))
+	for i := 0; i < 200 && rdDone == 0; i++ {
+		w.Drain(1_000_000_000)
+		poll()
+	}
+	if rdDone != 1 {
+		c.Failf("completion-not-delivered/read", "the read started on the new connection from inside the old one's handler completed %d times after the collection", rdDone)
+	}
 }
 
 func runC13GC(c *Ctx, v int) {
